@@ -211,6 +211,32 @@ def r_accum(prog, tier):
                 ok = False      # inside an inner loop: counted once per child / terminal, not once per node
             elif ok is None and not amount:
                 ok = False
+            elif ok is None and one_loop and hc and not uncond:
+                # positive evidence: the only counting statement sits under a further condition, and on the path where
+                # that condition fails nothing else counts the unit
+                tbl = unparse(n.ast.target.value.value.value) if pol else f.params[2]
+                extra = [a for a in cfg.assumes_at(n.id) if a.id not in [b.id for b in cfg.assumes_at(hc[0].id)] and a.id != hc[0].id]
+                for a in extra:
+                    tnode = cfg.stmt_node.get(a.owner)
+                    if tnode is None:
+                        continue
+                    other = None
+                    for pb in (True, False):
+                        st_ = cfg.branch.get(tnode, {}).get(pb)
+                        if st_ is not None and st_ != n.id and n.id not in cfg.reach(st_, avoid=frozenset([outer[0]])) | {st_}:
+                            other = st_
+                    if other is None:
+                        continue
+                    region = (cfg.reach(other, avoid=frozenset([outer[0], n.id])) | {other})
+                    counts_elsewhere = any(
+                        m in region and cfg.nodes[m].kind == 'stmt' and tbl + '[' in unparse(cfg.nodes[m].ast)
+                        and isinstance(cfg.nodes[m].ast, (ast.Assign, ast.AugAssign, ast.Expr))
+                        and not unparse(cfg.nodes[m].ast).startswith('print') for m in region
+                        if cfg.nodes[m].kind == 'stmt' and cfg.nodes[m].id != n.id and m not in cfg.reach(n.id, avoid=frozenset([outer[0]])))
+                    if not counts_elsewhere:
+                        ok = False
+                        why = '`%s` happens only under `%s%s`; otherwise the %s is not counted at all' % (
+                            unparse(n.ast)[:50], '' if a.pol else 'not ', unparse(a.ast)[:40], 'constituent' if pol else 'token')
         obs.append(Ob('R-ACCUM/EXTRACT', f.fq, what, ok, why, construct='extract:' + what, line=f.node.lineno))
     # ---- analysis tasks
     obs.extend(_task_rules(prog))
@@ -1295,4 +1321,52 @@ def r_discont(prog, tier):
             ok, why = None, 'not followed: %s' % ex
     obs.append(Ob('R-DISCONT/CHAIN', f.fq, 'a grammar is context-free iff no linearization has more than one argument',
                   ok, why, construct='chain-cf', line=f.node.lineno))
+    return obs, {}
+
+
+# ------------------------------------------------------------------------------------ R-PAIRUSE
+
+def r_pairuse(prog, tier):
+    """binarize_rule receives a bare production and *its* linearization: when the production comes out of the
+    reordering call, the linearization must come out of the same call."""
+    obs = []
+    f = prog.func('grammar', 'binarize')
+    cfg = f.cfg
+    ncalls = 0
+    for n in cfg.eval_nodes():
+        for root in cfg.exprs(n.id):
+            for sub in ast.walk(root):
+                if not (isinstance(sub, ast.Call) and prog.callee(sub, f) == ('grammar', 'binarize_rule') and len(sub.args) >= 2):
+                    continue
+                ncalls += 1
+                a0, a1 = sub.args[0], sub.args[1]
+                ok, why = None, 'arguments are not plain locals'
+                if isinstance(a0, ast.Name) and isinstance(a1, ast.Name):
+                    d0 = dict((nid, v) for (nid, v) in name_defs(f, a0.id))
+                    d1 = dict((nid, v) for (nid, v) in name_defs(f, a1.id))
+                    un0 = dict((nid, v) for nid, v in d0.items() if isinstance(v, tuple) and v[0] == 'unpack'
+                               and n.id in cfg.reach(nid))
+                    un1 = dict((nid, v) for nid, v in d1.items() if isinstance(v, tuple) and v[0] == 'unpack'
+                               and n.id in cfg.reach(nid))
+                    if not un0 and not un1:
+                        ok, why = None, 'neither argument comes out of a reordering call here'
+                    elif set(un0) == set(un1) and all(un0[k][2] == 0 and un1[k][2] == 1 and un0[k][1] is un1[k][1] for k in un0):
+                        ok, why = True, '`%s` and `%s` are the two results of the same call `%s`' % (
+                            a0.id, a1.id, unparse(list(un0.values())[0][1])[:50])
+                    elif un0 and not un1:
+                        ok = False
+                        why = '`%s` may be the reordered production (`%s`) but `%s` is never the linearization that call ' \
+                              'returns: right-hand sides and variables no longer belong together' % (
+                                  a0.id, unparse(list(un0.values())[0][1])[:50], a1.id)
+                    elif un1 and not un0:
+                        ok = False
+                        why = '`%s` may be the reordered linearization but `%s` is never the production that call returns' % (a1.id, a0.id)
+                    elif set(un0) == set(un1):
+                        ok = False
+                        why = 'the two results of the reordering call are handed over in swapped positions'
+                obs.append(Ob('R-PAIRUSE', f.fq, 'binarize_rule receives a production together with its own linearization '
+                              '(`%s`, `%s`)' % (unparse(a0), unparse(a1)), ok, why,
+                              construct='pairuse:%s:%s' % (unparse(a0), unparse(a1)), line=n.lineno))
+    if ncalls < 2:
+        raise Unrecognised('grammar.binarize calls binarize_rule %d times (2 expected)' % ncalls)
     return obs, {}
